@@ -125,8 +125,13 @@ fn search(args: &HiArgs, mode: SearchMode) -> anyhow::Result<bool> {
         searched = true;
         let search_result = match searcher.search(&haystack) {
             Ok(search_result) => search_result,
-            // A broken pipe means graceful termination.
-            Err(err) if err.kind() == std::io::ErrorKind::BrokenPipe => break,
+            // A broken pipe means graceful termination: hand it to `main`,
+            // which exits successfully. (Merely leaving the loop would lose
+            // the fact that the file being searched had matched, since its
+            // result is never seen, and report "no match" instead.)
+            Err(err) if err.kind() == std::io::ErrorKind::BrokenPipe => {
+                return Err(err.into());
+            }
             Err(err) => {
                 err_message!("{}: {}", haystack.path().display(), err);
                 continue;
